@@ -1,6 +1,6 @@
 From Coq Require Import ZArith Reals Lra.
 From Flocq Require Import Core BinarySingleNaN.
-Require Import GV.FloatBase GV.FloatLemmas GV.AngleM GV.AngleProofs.
+Require Import GV.FloatBase GV.FloatLemmas GV.AngleM GV.AngleProofs GV.NewProofs GV.CtorProofs.
 Open Scope R_scope.
 Require Import GV.Properties.C04.
 Check C04_spellings : forall a b,
@@ -28,3 +28,10 @@ Print Assumptions C04_sub_total.
 Check C04_add_sub : forall a b, canonp (rem a) -> canonp (rem b) -> (1 <= blade a)%Z ->
   Rabs (theta (geometric_sub (geometric_add a b) b) - theta a) <= 2 * R_ eps10 + 5 * / 4503599627370496.
 Print Assumptions C04_add_sub.
+Check C04_divf : forall a k, Canon a -> (blade a < 2 ^ 50)%Z -> fin k ->
+  bpow radix2 (-900) <= R_ k <= bpow radix2 900 -> theta a / R_ k <= bpow radix2 41 ->
+  0 < R_ (total_angle (fdiv (float_total a) k) PI) ->
+  Canon (divf_v a k) /\
+  Rabs (theta (divf_v a k) - theta a / R_ k)
+    <= R_ eps10 + / 4503599627370496 + bpow radix2 (-69) + bpow radix2 (-49) * (theta a / R_ k).
+Print Assumptions C04_divf.
